@@ -970,6 +970,87 @@ def run_indel_tables(chk, n):
                          {"indel_case": case, "structure": st}, {"fresh": want}, {"after_other_calls": got, "diff": diff})
 
 
+
+# ====================================================================================================================
+# call order: cheap public calls with varying arguments, each compared with the same call made in a pristine process image
+# ====================================================================================================================
+def _call_specs():
+    """(kind, arguments) of calls whose result must not depend on what was called before (loading a profile, with or without a custom
+    neutral region / parameters; loading a gene database for either build)"""
+    specs = []
+    for prof in ("illumina", "pgx1", "pgx2", "10x"):
+        specs.append(["profile", "cyp2d6", prof, None, {}])
+        specs.append(["profile", "cyp2d6", prof, None, {"gap": 0.1, "phase": False}])
+    # a custom neutral region is accepted with the illumina profile only: different lengths, either half of the default region
+    for frac in ((0.0, 0.5), (0.5, 1.0), (0.25, 0.5)):
+        specs.append(["profile", "cyp2d6", "illumina", list(frac), {}])
+    specs.append(["profile", "cyp2c19", "illumina", None, {}])
+    specs.append(["profile", "cyp2c19", "illumina", [0.0, 0.5], {"min_coverage": 3}])
+    for g in ("nudt15", "cyp2c19"):
+        for genome in ("hg19", "hg38"):
+            specs.append(["gene", g, genome])
+    return specs
+
+
+_GENES = {}
+
+
+def _do_call(spec):
+    from aldy.gene import Gene, GRange
+    from aldy.common import script_path
+    from aldy.profile import Profile
+    common.quiet_aldy()
+    if spec[0] == "gene":
+        g = Gene(script_path(f"aldy.resources.genes/{spec[1]}.yml"), genome=spec[2])
+        return {"digest": digest(snap_gene(g))}
+    _, gname, prof, frac, params = spec
+    key = (gname, "hg19")
+    if key not in _GENES:
+        _GENES[key] = Gene(script_path(f"aldy.resources.genes/{gname}.yml"), genome="hg19")
+    g = _GENES[key]
+    cn = None
+    if frac is not None:
+        import yaml
+        d = yaml.safe_load(open(script_path("aldy.resources.profiles/illumina.yml")))
+        c, s0, e0 = d["neutral"]["hg19"]
+        cn = GRange(c, s0 + int((e0 - s0) * frac[0]), s0 + int((e0 - s0) * frac[1]))
+    try:
+        p = Profile.load(g, prof, cn, **params)
+    except Exception as e:  # noqa
+        return {"error": f"{type(e).__name__}: {str(e)[:100]}"}
+    return {"cn_region": [p.cn_region.chr, p.cn_region.start, p.cn_region.end] if p.cn_region else None, "neutral_value": p.neutral_value,
+            "options": {k: repr(v) for k, v in sorted(p.__dict__.items()) if k not in ("data", "cn_region", "cn_solution")},
+            "data": digest(snap(p.data.get(g.name))), "neutral_in_data": snap(p.data.get("neutral"))}
+
+
+def run_call_order(chk, n_hist):
+    """every call's result in a random in-process sequence equals its result in a pristine image of this process (forked before the
+    first call): nothing a call does may leak into a later call with other arguments"""
+    import e2e
+    specs = _call_specs()
+    base = e2e.run_pool(_do_call, specs, jobs=8, timeout=120)
+    rng = chk.rng
+    for h in range(n_hist):
+        seq = [rng.randrange(len(specs)) for _ in range(rng.randint(6, 12))]
+        # make sure a custom-region load comes before a default load of the same profile at least once
+        if h % 2 == 0:
+            seq = [rng.choice([8, 9, 10, 12])] + seq + [0, 11]
+        chk.case("call-order", {"sequence": seq, "n": h}, nontrivial=True, sample={"sequence": [specs[i][:4] for i in seq[:6]]} if h < 2 else None)
+        for k, i in enumerate(seq):
+            got = _do_call(specs[i])
+            chk.evaluations += 1
+            b = base[i]
+            if b.get("timeout") or b.get("crash"):
+                chk.count("call-order", "baseline-unavailable")
+                continue
+            if got != b:
+                diff = {x: [b.get(x), got.get(x)] for x in set(b) | set(got) if b.get(x) != got.get(x)}
+                chk.fail("after-other-calls", {"op": specs[i][0], "what": "result depends on earlier calls in the process"},
+                         {"call_order": [specs[j] for j in seq[:k + 1]]}, {"pristine": {x: v[0] for x, v in diff.items()}},
+                         {"after_sequence": {x: v[1] for x, v in diff.items()}})
+                return
+
+
 # ====================================================================================================================
 # entry points
 # ====================================================================================================================
@@ -1077,7 +1158,9 @@ def run(chk):
                 "under two seeds).  pools = two witnesses + random TOY depth tables x 2-3 candidates of different structures, all "
                 "ordered sub-pools, + major solutions of the generated gene under 3-4 structures.  indel tables = random TOY depth tables WITH "
                 "a read-support table for the catalogued indels (fractions between the thresholds of 2-4 copies), stage calls under 2-3 "
-                "structures in random order on ONE Coverage object, evidence snapshot and comparison with a fresh equal Coverage after each")
+                "structures in random order on ONE Coverage object, evidence snapshot and comparison with a fresh equal Coverage after each.  "
+                "call order = random sequences of 6-14 cheap public calls (Profile.load of shipped profiles with / without a custom neutral "
+                "region and parameters, Gene loads for both builds), each result compared with the same call in a pristine forked image")
     chk.extra_trusted = ["gendb.py / simreads.py generators; deep-snapshot code (dict order kept, sets sorted); PYTHONHASHSEED handling of CPython",
                          "Frame.v programs are hand transcriptions of the Python operations (tie = snapshots, not a translator)"]
     chk.assumptions = ["scores compared to 1e-6 abs + 1e-9 rel, everything else (names, variant lists, output files) exactly"]
@@ -1115,6 +1198,7 @@ def run(chk):
             na_procs[sd] = spawn_worker(sp, sd, common.REPO)
         # ---- in-process part
         t0 = time.time()
+        run_call_order(chk, 4 if quick else 40)
         acc = detect_variants(chk, world)
         pool_results = run_pools(chk, world, 8 if quick else 120, quick)
         run_indel_tables(chk, 10 if quick else 150)
